@@ -72,12 +72,30 @@ static long run_workload (int format, int ch, int wl, int t, const MEMF *base, l
 			sf_get_string (s, SF_STR_TITLE) ;
 			}
 		else
-		{	vh_state (s, &st) ; r = vh_read_t (s, t, 0, buf, 50 * ch, ch) ; chk_count (s, "read", r, 50 * ch, ch, 1, &st) ;
-			sf_seek (s, 10, SEEK_SET) ; vh_state (s, &st) ; r = vh_write_t (s, t, 1, buf, 30 * ch, ch) ; chk_count (s, "write", r, 30 * ch, ch, 0, &st) ;
-			sf_seek (s, 0, SEEK_END) ; vh_state (s, &st) ; r = vh_write_t (s, t, 0, buf, 64 * ch, ch) ; chk_count (s, "write", r, 64 * ch, ch, 0, &st) ;
-			sf_seek (s, 5, SEEK_SET | SFM_READ) ; vh_state (s, &st) ; r = vh_read_t (s, t, 1, buf, 20 * ch, ch) ; chk_count (s, "read", r, 20 * ch, ch, 1, &st) ;
+		{	/* "data the I/O layer accepted before the failure is not corrupted by later calls": a model image of the audio is kept for the lossless 16-bit cases
+			** (base file, then every write applied at the position the library itself reports, with the count it returned) and compared with the finished file */
+			int model = (t == T_SHORT && vh_is_lossless_int (format) && vh_bits (format) >= 16 && fault_at > 0 && !persist && (kind == VF_ZERO || kind == VF_SHORT || kind == VF_SEEKFAIL) && g_fault2 == 0) ;
+			static short img [8192], wrsnap [2048] ; long imgF = 0, q ; int fired_in_write = 0, fired_in_seek = 0 ;
+			if (model) { SF_INFO bi ; MEMF bm = *base ; SNDFILE *b ; memset (&bi, 0, sizeof (bi)) ; bm.pos = 0 ; bm.fault_at = 0 ; bm.budget = 0 ; b = sf_open_virtual (&MVIO, SFM_READ, &bi, &bm) ; if (b && bi.frames * ch + 200 * ch < 8192) { imgF = (long) sf_readf_short (b, img, bi.frames) ; sf_close (b) ; } else { if (b) sf_close (b) ; model = 0 ; } }
+			vh_state (s, &st) ; r = vh_read_t (s, t, 0, buf, 50 * ch, ch) ; chk_count (s, "read", r, 50 * ch, ch, 1, &st) ;
+			{ long f0c = store.fired ; sf_seek (s, 10, SEEK_SET | SFM_WRITE) ; if (store.fired != f0c) fired_in_seek = 1 ; } vh_state (s, &st) ; { long f0c = store.fired ; memcpy (wrsnap, buf, sizeof (wrsnap)) ; r = vh_write_t (s, t, 1, buf, 30 * ch, ch) ; if (store.fired != f0c) fired_in_write = 1 ; } chk_count (s, "write", r, 30 * ch, ch, 0, &st) ;
+			if (model && r > 0 && st.write_current >= 0 && (st.write_current + r / ch) * ch < 8192) { memcpy (img + st.write_current * ch, wrsnap, (size_t) r * 2) ; if (st.write_current + r / ch > imgF) imgF = (long) (st.write_current + r / ch) ; }
+			vh_state (s, &st) ; r = vh_read_t (s, t, 1, buf, 20 * ch, ch) ; chk_count (s, "read", r, 20 * ch, ch, 1, &st) ;
+			{ long f0c = store.fired ; sf_seek (s, 0, (cur_t & 1) ? SEEK_END : (SEEK_END | SFM_WRITE)) ; if (store.fired != f0c) fired_in_seek = 1 ; } vh_state (s, &st) ; { long f0c = store.fired ; memcpy (wrsnap, buf, sizeof (wrsnap)) ; r = vh_write_t (s, t, 0, buf, 64 * ch, ch) ; if (store.fired != f0c) fired_in_write = 1 ; } chk_count (s, "write", r, 64 * ch, ch, 0, &st) ;
+			if (model && r > 0 && st.write_current >= 0 && (st.write_current + r / ch) * ch < 8192) { memcpy (img + st.write_current * ch, wrsnap, (size_t) r * 2) ; if (st.write_current + r / ch > imgF) imgF = (long) (st.write_current + r / ch) ; }
+			{ long f0c = store.fired ; sf_seek (s, 5, SEEK_SET | SFM_READ) ; if (store.fired != f0c) fired_in_seek = 1 ; } vh_state (s, &st) ; r = vh_read_t (s, t, 1, buf, 20 * ch, ch) ; chk_count (s, "read", r, 20 * ch, ch, 1, &st) ;
+			sf_close (s) ; s = NULL ;
+			if (model && store.fired && fired_in_seek && !fired_in_write)		/* judged only when the single fault hit one of the sf_seek calls: a fault during open, a write or the close changes what the library knows about the file */
+			{	SF_INFO ri ; SNDFILE *rd ; static short got [8192] ; long F ; MEMF fm = store ; fm.pos = 0 ; fm.fault_at = 0 ; fm.fault_at2 = 0 ; fm.budget = 0 ; memset (&ri, 0, sizeof (ri)) ;
+				rd = sf_open_virtual (&MVIO, SFM_READ, &ri, &fm) ;
+				if (rd && ri.channels == ch && ri.frames * ch < 8192)
+				{	F = (long) sf_readf_short (rd, got, ri.frames) ; if (F > imgF) F = imgF ;
+					for (q = 0 ; q < F * ch ; q++) if (got [q] != img [q]) { vh_viol (vh_key ("C15|accepted-data-corrupted|%s|%s", cur_fn, keyq), "single-shot fault at callback %ld: frame %ld of the finished file holds %d; the base file plus the writes the library reported (at the positions it reported) give %d", fault_at, q / ch, got [q], img [q]) ; break ; }
+					vh_stat ("accepted_data_images_compared", 1) ; }
+				if (rd) sf_close (rd) ;
+				}
 			}
-		sf_close (s) ;
+		if (s) sf_close (s) ;
 		}
 accounted :
 	calls = store.ncalls ; store.budget = 0 ;
